@@ -216,7 +216,11 @@ Consume(mm, v, at, strict) ==
                THEN [m |-> [mm EXCEPT !.lost = TRUE],
                      v |-> v \cup {V("C03", at, "response missing or incomplete for a " \o e.cls.kind \o " command")}
                              \cup (IF "why" \in DOMAIN j /\ j.why \in MetaWhy
-                                   THEN {V("C09", at, "column metadata incomplete: " \o j.why)} ELSE {})]
+                                   THEN {V("C09", at, "column metadata incomplete: " \o j.why)} ELSE {})
+                             \cup (IF e.cls.cb \in {"on_query", "on_execute", "on_init", "on_prepare"} /\ e.st = "ret"
+                                      /\ LET us == Denote(e.prog, e.bin, at).units IN
+                                         \E k \in 1..Len(us) : us[k].k = "err" \/ (us[k].k = "rs" /\ us[k].term = "err")
+                                   THEN {V("C13", at, "an error reported by the shim did not reach the client as a decodable ERR packet")} ELSE {})]
                ELSE [m |-> mm, v |-> v])
             ELSE LET mm2 == [mm EXCEPT !.q = Tail(@), !.cur = IF @ > 0 THEN @ - 1 ELSE 0, !.ob = AfterMsgs(mm.ob, r.msgs, j.used),
                                        !.lost = j.lost, !.floats = @ \o j.floats, !.n.units = @ + 1, !.n.pkts = @ + j.used]
@@ -325,7 +329,10 @@ Step ==
                                                      \cup (IF c.kind = "close" THEN {V("C10", l, "a COM_STMT_CLOSE did not reach on_close")} ELSE {})
                                 ELSE IF e.name = "auth" THEN
                                   LET h == DecHandshakeResponse(q.p, mm.enc) IN
-                                  (IF e.has_user # h.hasuser \/ e.user # h.user THEN {V("C11", l, "user name passed to after_authentication differs from the client's")} ELSE {})
+                                  (IF e.has_user # h.hasuser \/ e.user # h.user
+                                   THEN {V("C11", l, "user name passed to after_authentication differs from the client's")}
+                                        \cup (IF mm.enc /\ mm.ctls THEN {V("C18", l, "the user name of the encrypted handshake response did not reach after_authentication")} ELSE {})
+                                   ELSE {})
                                   \cup (IF mm.enc /\ mm.ctls /\ mm.ccert /\ e.ncerts < 1 THEN {V("C18", l, "the client's certificate chain did not reach after_authentication")} ELSE {})
                                   \cup (IF ~(mm.enc /\ mm.ctls /\ mm.ccert) /\ e.ncerts > 0 THEN {V("C18", l, "certificates reported although the client presented none")} ELSE {})
                                 ELSE IF e.name \in {"on_execute", "on_close"} THEN
@@ -494,9 +501,13 @@ Step ==
                 vrefused == IF res = "err" /\ mm.dead = "" /\ ~mm.fault /\ ~mm.lost /\ ~mm.free /\ FirstNew(mm.q) # 0
                                /\ mm.q[FirstNew(mm.q)].cls.kind = "execute" /\ RegFind(mm.reg, mm.q[FirstNew(mm.q)].cls.arg) # 0
                             THEN {V("C10", l, "an execution of a live statement id was refused (the id was prepared and never closed)")} ELSE {}
+                \* a well-formed handshake response must reach after_authentication (C11)
+                vhs == IF res = "err" /\ mm.dead = "" /\ ~mm.fault /\ ~mm.lost /\ ~mm.free /\ FirstNew(mm.q) # 0
+                          /\ mm.q[FirstNew(mm.q)].cls.kind = "hs"
+                       THEN {V("C11", l, "a well-formed handshake response was refused: after_authentication was never called")} ELSE {}
                 vblock == IF mm.blocked /\ ~mm.lost THEN {V("C12", l, "lock-step client blocked: the server waited for input while the client was waiting for a reply")} ELSE {}
             IN /\ m' = [mm EXCEPT !.done = TRUE]
-               /\ viol' = r0.v \cup vres \cup vsync \cup vblock \cup vpanic \cup vtls \cup vmissed \cup vrefused
+               /\ viol' = r0.v \cup vres \cup vsync \cup vblock \cup vpanic \cup vtls \cup vmissed \cup vrefused \cup vhs
        [] OTHER -> UNCHANGED <<m, viol>>
 
 Spec == Init /\ [][Step]_vars
